@@ -7,7 +7,8 @@ use std::cell::RefCell;
 use std::rc::Rc;
 
 pub const CONSUMERS: &[&str] = &["not", "if", "elseif", "while"];
-const TRUTHY: &[&str] = &["1", "true", "yes", "TRUE", "x", "00", "0.0", " ", "nope", "off", "falsey", "-1", "é", "0 ", "f alse"];
+const TRUTHY: &[&str] = &["1", "true", "yes", "TRUE", "x", "00", "0.0", " ", "nope", "off", "falsey", "-1", "é", "0 ", "f alse",
+    "n", "f", "fa", "fals", "N", "north", "NONE", "falsehood", "0x0", "-0", "+0", "\t", "nо", "\u{feff}", "null", "nil", "undefined"];
 const FALSY: &[&str] = &["0", "false", "no", "", "FALSE", "False", "NO", "No", "nO", "fAlSe"];
 
 pub struct Rig {
